@@ -357,6 +357,59 @@ func msgData(data []byte) []byte {
 	return data[mi+2 : mi+2+ml]
 }
 
+// learnThroughHops lets origin announce itself to the victim and dresses the announcement with the hop records of the
+// given relays (outermost first), each made and signed by that relay for exactly this announcement; it is delivered
+// over the link of the outermost relay.
+func (s *scene) learnThroughHops(origin *world.Node, relays []*world.Node) {
+	s.ms.W.Inflight = nil
+	time.Sleep(2 * time.Millisecond)
+	_ = origin.Rt.AnnouncePing.Send(s.v.ID.IP)
+	var fr []byte
+	for _, fl := range s.ms.W.Inflight {
+		if fl.To == s.v && fl.From == origin {
+			fr = append([]byte(nil), fl.Data...)
+		}
+	}
+	s.ms.W.Inflight = nil
+	if fr == nil {
+		panic("learnThroughHops: no announcement captured")
+	}
+	mi := 49 + int(fr[48])
+	ml := int(fr[mi])<<8 | int(fr[mi+1])
+	authFrom := mi + 2 + ml
+	ctx := make([]byte, 16+8+64)
+	copy(ctx[:16], fr[16:32])
+	copy(ctx[16:24], fr[8:16])
+	copy(ctx[24:], fr[authFrom:authFrom+64])
+	var inner []byte
+	for i := len(relays) - 1; i >= 0; i-- {
+		at := router.AnnouncePingAttachment{Router: relays[i].ID.PublicAddress, Delay: uint16(3 + i), ForwardLabel: m.SwitchLabel(70 + i), ReturnLabel: m.SwitchLabel(80 + i), NextAttachment: inner}
+		if i == 0 {
+			at.ReturnLabel = relays[0].LinkTo(s.v).SwitchLabel()
+		}
+		body, err := cbor.Marshal(at)
+		if err != nil {
+			panic(err)
+		}
+		sig, err := relays[i].ID.SignWithContext(body, ctx)
+		if err != nil {
+			panic(err)
+		}
+		inner = append(body, sig...)
+	}
+	out := append(append([]byte(nil), fr[:authFrom+64]...), inner...)
+	res, err := s.ms.W.DeliverRaw(relays[0], s.v, out)
+	if err != nil {
+		panic(fmt.Sprintf("learnThroughHops: the genuine announcement was refused: %v", err))
+	}
+	for _, h := range res {
+		if e := h.HandlerErr(); e != "" {
+			panic("learnThroughHops: the genuine announcement was refused: " + e)
+		}
+	}
+	s.ms.W.Inflight = nil
+}
+
 // deliverFrom picks the link the frame arrives on: the claimed source if it is a peer, else peer 1.
 func (s *scene) via(x int) *world.Node {
 	if x >= 1 && x <= 3 {
@@ -510,6 +563,16 @@ func run(c *vf.Ctx) {
 				}
 			}
 			data = g1
+		case "resealed-after-hop-learning":
+			z := s.node(a.Src%3 + 1)
+			if a.Src == 5 {
+				// the victim first hears of router 5 as a relay in a genuine announcement of peer 3 that travelled
+				// 3 -> 2 -> 5 -> 1 -> victim: records of 1 (outermost), 5 and 2, each signed by its router
+				z = s.node(2)
+				pre = func() { s.learnThroughHops(s.node(3), []*world.Node{s.node(1), x, z}) }
+				note = "router 5 learnt from a hop record; ping sealed by the next deeper relay, router 2"
+			}
+			data = s.genuinePing(a.Type, z, x)
 		case "forged-at-newest-stamp":
 			// X's newest signed frame is on record at the victim; Z makes a hop ping claiming X with exactly that stamp
 			g1 := s.genuinePing("err-generic", x, x)
